@@ -351,10 +351,17 @@ pub fn plan_creator(w: &World, _k: &Knobs, actor: &mut Actor, l: &Ledger, now: i
         flow.push((tx1(ix::initialize_config(&cfg2, &me, &w.fee_authority, &w.collector, &w.reward_super, *rng.pick(&[0u16, 300, 2500, 2501]))), "initialize_config".into()));
     }
     // a fabricated mint
-    let mint = new_key(rng);
+    // mostly a fresh address; now and then one of the two well-known native mint addresses (wrapped SOL of the classic
+    // token program is an ordinary mint; the native mint of Token-2022 is never supported)
+    let special = rng.below(14);
+    let mint = match special {
+        0 => spl_token_2022::native_mint::ID,
+        1 => spl_token::native_mint::ID,
+        _ => new_key(rng),
+    };
     let fab = fabricate_mint(rng, &me);
     let lamports = crate::world::rent_min(fab.data.len().max(82));
-    let plain = rng.chance(1, 6);
+    let plain = if special == 0 { false } else if special == 1 { true } else { rng.chance(1, 6) };
     let (owner, data) = if plain {
         let mut d = fab.data[..82].to_vec();
         d.truncate(82);
